@@ -490,6 +490,16 @@ func (h *SrvH) SendLite(c int, m *spb.ModifyRequest) (*spb.ModifyResponse, bool)
 		if len(f.out) > before {
 			r := f.out[len(f.out)-1]
 			f.mu.Unlock()
+			// consume the "back in Recv" token of this message, so that a later Send/await does
+			// not mistake it for its own
+			select {
+			case <-f.ready:
+			case <-f.done:
+				f.ended = true
+				return r, false
+			case <-time.After(stepTimeout):
+				return r, false
+			}
 			return r, true
 		}
 		f.mu.Unlock()
